@@ -219,7 +219,7 @@ pub(crate) mod verif_c01 {
         U64Now(u64),
         BoolNow,
     }
-    pub static STRS: [&str; 13] = ["NaN", "Infinity", "-Infinity", "true", "false", "1.5", "QUJD", "ab", "", "-0.25", "AQ==", "AQI=", "AQ"];
+    pub static STRS: [&str; 15] = ["NaN", "Infinity", "-Infinity", "true", "false", "1.5", "QUJD", "ab", "", "-0.25", "AQ==", "AQI=", "AQ", "+/8=", "-_8="];
     pub static mut REPLIES: [Reply; 4] = [Reply::Natural; 4];
     pub static mut BOOLVAL: bool = false;
     pub static mut F64VAL: f64 = 0.0;
